@@ -1,5 +1,7 @@
 pub use self::parameters::VHACDParameters;
 pub use self::vhacd::VHACD;
+#[cfg(all(dimforge_parry_verif, feature = "std"))]
+pub use self::vhacd::verif_tap;
 
 pub(crate) use self::vhacd::CutPlane;
 
